@@ -99,6 +99,7 @@ def _convert_arg_to_type(
 
     value,      dest_type,      result
     []          int | None      None
+    []          int | tuple[int, ...]   ()
     [1]         int | None      1
     [1]         tuple[int, ...] (1,)
     [1,2]       tuple[int, ...] (1,2)
@@ -116,7 +117,8 @@ def _convert_arg_to_type(
         if len(value) == 0:
             if NoneType in get_args(dest_type):
                 return None
-            else:
+            elif not isa(value, dest_type):
+                # an empty tuple is a value of e.g. `Literal["a"] | tuple[str, ...]`
                 raise ValueError("Argument must contain a value")
 
     # first check if an individual value passes the type check
